@@ -71,14 +71,61 @@ def table_of(f):
     return {k: sorted(v) for k, v in out.items()}
 
 
+def _kind(v):
+    if isinstance(v, (ast.Set, ast.SetComp)):
+        return 'set'
+    if isinstance(v, (ast.List, ast.ListComp)):
+        return 'list'
+    if isinstance(v, (ast.Dict, ast.DictComp)):
+        return 'dict'
+    if isinstance(v, ast.Tuple):
+        return 'tuple'
+    if isinstance(v, ast.Call):
+        f = v.func
+        nm = f.attr if isinstance(f, ast.Attribute) else getattr(f, 'id', None)
+        return {'set': 'set', 'frozenset': 'set', 'list': 'list', 'sorted': 'list', 'dict': 'dict',
+                'OrderedDict': 'dict', 'defaultdict': 'dict', 'tuple': 'tuple'}.get(nm)
+    return None
+
+
+def kinds_of(f):
+    """{local: 'set' | 'list' | 'dict' | 'tuple'} for locals every plain assignment of which
+    builds a container of one kind, and that are used for more than membership tests."""
+    d = defs(f.node)
+    out = {}
+    for nm, vals in d.values.items():
+        if nm in d.params:
+            continue
+        ks = {_kind(v) for kind, v, stmt in vals if kind == 'assign' and
+              not isinstance(stmt, ast.AugAssign)}
+        if len(ks) != 1 or None in ks:
+            continue
+        other_use = False
+        for n in own_nodes(f.node):
+            if isinstance(n, ast.Name) and n.id == nm and isinstance(n.ctx, ast.Load):
+                par = getattr(n, '_parent', None)
+                if isinstance(par, ast.Compare) and n in par.comparators and \
+                        all(isinstance(o, (ast.In, ast.NotIn)) for o in par.ops):
+                    continue
+                other_use = True
+        if other_use:
+            out[nm] = ks.pop()
+    return out
+
+
 def build_reference(pm):
     fns = {}
+    kinds = {}
     for q, f in sorted(pm.functions.items()):
         t = table_of(f)
         if t:
             fns[q] = t
+        k = kinds_of(f)
+        if k:
+            kinds[q] = k
     return {'note': 'per function: the bindings of a local that can reach each statement reading '
-                    'it, at /repo HEAD; see stonelint/usedef.py', 'functions': fns}
+                    'it, at /repo HEAD; see stonelint/usedef.py', 'functions': fns,
+            'kinds': kinds}
 
 
 _CACHE = {}
@@ -87,7 +134,9 @@ _CACHE = {}
 def load_reference():
     if 'ref' not in _CACHE:
         try:
-            _CACHE['ref'] = json.load(open(REF))['functions']
+            j = json.load(open(REF))
+            _CACHE['ref'] = j['functions']
+            _CACHE['kinds'] = j.get('kinds', {})
         except (OSError, ValueError, KeyError):
             _CACHE['ref'] = None
     return _CACHE['ref']
@@ -129,6 +178,20 @@ def run(pm, ctx, rule, patterns):
                       'saw on the confirmed tree' % (f.short, site[:90], var,
                                                      new[0][1][0][:90] if new else ''),
                   key='%s|%s|%s|%s' % (rule, f.qualname, var, (new[0][1][0][:50] if new else '')))
+        rk = _CACHE.get('kinds', {}).get(f.qualname)
+        if rk:
+            ck = kinds_of(f)
+            for var, k in sorted(rk.items()):
+                c = ck.get(var)
+                if c is None or c == k or {c, k} != {'set', 'list'}:
+                    continue
+                ctx.check(rule, False, '', f.loc,
+                          msg='%s: %s was a %s on the confirmed tree and is a %s now: %s' % (
+                              f.short, var, k, c,
+                              'duplicates are kept and remove() takes out one occurrence only'
+                              if c == 'list' else 'duplicates collapse and the iteration order '
+                              'is no longer the insertion order'),
+                          key='%s|%s|kind|%s' % (rule, f.qualname, var))
     ctx.extra['%s_functions' % rule] = n
     ctx.extra['%s_reads' % rule] = reads
     ctx.floor(rule, n, 1, 'functions compared with the reference')
